@@ -26,4 +26,14 @@ def main():
 
 
 if __name__ == "__main__":
-    main()
+    # exit 1 is reserved for "VIOLATION line printed"; a crash of the machinery itself (e.g. a props
+    # module that cannot be loaded against a changed tree) is a harness error: exit 2.
+    try:
+        main()
+    except SystemExit:
+        raise
+    except BaseException:
+        import traceback
+        traceback.print_exc()
+        print("HARNESS-ERROR: the check machinery crashed (see traceback); no verdict")
+        sys.exit(2)
